@@ -65,7 +65,8 @@ def build(case: Dict[str, Any], seed: int):
     # no bisection: the free body's origin sits 5..25 mm from the static geom's centre, well inside both geoms' extents (sizes are >= 60 mm)
     s, mm = signed(float(r.uniform(0.005, 0.025)))
     return mm, s, s
-  lo, hi = 0.0, 0.8
+  # (a random hull need not contain its frame's origin: against a plane the search also looks below it, where the distance keeps decreasing)
+  lo, hi = (-0.3 if c["t1"] == "plane" else 0.0), 0.8
   for _ in range(40):
     mid = 0.5 * (lo + hi)
     s, _m = signed(mid)
